@@ -160,6 +160,9 @@ def process_unit(unit, seed, vacuity=True):
     fb = fn_breakdown(r["json"])
     res.rlimit_used = {k: v.get("rlimit") for k, v in fb.items()}
     classify(res, r, lines, unit, seed, path)
+    if not res.failures and not res.undecided and (r["exit"] != 0 or not vres.get("success", False)):
+        # Verus failed without a diagnostic that could be mapped (internal error, panic of the tool): never a pass
+        res.undecided.append("unit %s: verus exited %s without a usable diagnostic: %s" % (unit.name, r["exit"], r["stderr"].strip()[-600:]))
     if vacuity and vr is not None and not res.undecided:
         if vr["json"] is None:
             res.undecided.append("vacuity twin of %s produced no JSON" % unit.name)
